@@ -131,6 +131,21 @@ PROPS["C08"] = dict(
                Q + "Unit.__truediv__", Q + "Unit.__mul__",
                Q + "QuantityMeta.get_unit_by_symbol"],
     standins=["C08"], frame=["_smallest_fraction", "_currency_dict"])
+PROPS["C20"] = dict(
+    functions=[Q + "QuantityMeta._make_unit", Q + "QuantityMeta._make_ref_unit",
+               Q + "QuantityMeta.new_unit", Q + "Quantity.convert",
+               Q + "Quantity.equiv_amount", Q + "Unit._get_factor",
+               Q + "Unit.__mul__"],
+    ground="catalogue", standins=["C20"])
+PROPS["C18"] = dict(
+    functions=[Q + "Quantity.__new__", Q + "Quantity.__str__",
+               Q + "Quantity.__format__", Q + "Unit.__mul__",
+               Q + "Unit.__rmul__"],
+    standins=["C18"], level="other",
+    level_note="parsing of amount-and-symbol strings (str.lstrip/split, "
+               "Decimal(str)/Fraction(str), symbol lookup) and therefore the "
+               "text round trip are outside the verifier's reach and covered "
+               "by the bounded stand-in only")
 PROPS["C05"]["functions"] += [_ER[4], _ER[7]]
 PROPS["C16"]["functions"] += [MN + "MoneyMeta.new_unit",
                               MN + "MoneyMeta.register_currency",
